@@ -144,9 +144,10 @@ where
         write_check_restrictions_footer(writer)?;
     }
 
-    let body = soap_operation.body.rust_type.xml_name().expect("xml_name not found");
-    let body_field_name = as_field_name(&to_snake_case(body));
     let xml_name = soap_operation.body.rust_type.xml_name().expect("xml_name not found");
+    let body_field_name = as_field_name(&to_snake_case(xml_name));
+    // the struct generated for the body element is named in PascalCase
+    let body = to_pascal_case(xml_name);
 
     writeln!(writer, "#[derive(Debug, Default, YaSerialize, YaDeserialize)]")?;
 
